@@ -81,6 +81,7 @@ type LemmaSpec struct {
 
 type GhostField struct {
 	Type, Name, GoType string
+	Follows            string // real field whose modification implies this ghost field may change
 }
 
 type SpecDB struct {
@@ -100,7 +101,7 @@ func NewSpecDB() *SpecDB {
 		SpecFns: map[string]*SpecFn{}, Ghosts: map[string][]GhostField{}, Consts: map[string]string{}}
 }
 
-var clauseKW = map[string]bool{"requires": true, "ensures": true, "modifies": true, "decreases": true, "loop": true,
+var clauseKW = map[string]bool{"requires": true, "ensures": true, "ghostensures": true, "modifies": true, "decreases": true, "loop": true,
 	"inline": true, "trusted": true, "pure": true, "tag": true, "noframe": true, "opaque": true, "unclaimed": true}
 var topKW = map[string]bool{"func": true, "functype": true, "extern": true, "pred": true, "table": true, "specfn": true,
 	"axiom": true, "lemma": true, "ghostfield": true, "iface": true, "const": true}
@@ -185,7 +186,7 @@ func (db *SpecDB) LoadFile(path string, pkg string) error {
 				cur.Trusted = true
 			}
 			db.Funcs[key] = cur
-		case "requires", "ensures", "decreases":
+		case "requires", "ensures", "decreases", "ghostensures":
 			if cur == nil {
 				return fail("clause outside func")
 			}
@@ -346,6 +347,11 @@ func (db *SpecDB) LoadFile(path string, pkg string) error {
 		case "ghostfield":
 			// ghostfield Scanner.open int
 			f := strings.Fields(rest)
+			follows := ""
+			if len(f) == 4 && f[2] == "follows" {
+				follows = f[3]
+				f = f[:2]
+			}
 			if len(f) != 2 || !strings.Contains(f[0], ".") {
 				return fail("ghostfield syntax")
 			}
@@ -354,7 +360,7 @@ func (db *SpecDB) LoadFile(path string, pkg string) error {
 			if !strings.Contains(tn, ".") {
 				tn = pkg + "." + tn
 			}
-			db.Ghosts[tn] = append(db.Ghosts[tn], GhostField{tn, fn, f[1]})
+			db.Ghosts[tn] = append(db.Ghosts[tn], GhostField{tn, fn, f[1], follows})
 			cur = nil
 		default:
 			return fail("unknown keyword %q", kw)
